@@ -63,6 +63,23 @@ TEXT = {
 }
 
 
+# what the per-run translator (tools/rs2lean.py, ser_shape.py) regenerates from /repo/src for each property, with a proven
+# equation `generated = model` (or an `rfl` / `decide` obligation) among the property's obligations
+TRANSLATED = {
+ "C01": "RankSupport::rank{,_unchecked}, SelectSupport::select_unchecked (scan loop included), BitVector::{len, count_ones, get, rank, select, select_zero, select_iter, select_zero_iter, predecessor, successor, one_iter, zero_iter, iter}",
+ "C02": "SparseVector::{split, combine, pos, lower_bound, upper_bound, select, get, rank, predecessor, successor, count_zeros} (bucket scans included), SparseBuilder::get_buckets",
+ "C03": "SampleIndex::{div_round_up, parameters, range}",
+ "C04": "WMCore::{bit_value, map_down_one, map_down_zero, map_up_one, map_up_zero}",
+ "C05": "RawVector::{bit, int, word, word_unchecked, set_unused_bits, set_bit, set_int, push_bit, push_int, pop_bit, pop_int, resize}, IntVector::{get, set, push}",
+ "C06": "the field order of serialize_header / serialize_body, the load order and the size_in_elements summands of all 14 `impl Serialize` blocks",
+ "C08": "Identity / Complement ::{bit, word, word_unchecked, count_ones}",
+ "C10": "the five methods of ops::AccessIter and of bit_vector::Iter; OneIter<T>::{next, nth, next_back, size_hint} (word scans included)",
+ "C14": "every statement of every serialize_header / serialize_body (obligation: each is a `?`-joined serialize / write_all)",
+ "C16": "RLBuilder::{count_zeros, code_len, flush, set_run_unchecked, set_bit_unchecked, try_set, set_len}, SparseBuilder::{is_full, capacity, universe, next_index, is_multiset, is_empty, set_unchecked, try_set}",
+ "C17": "every function of bits.rs except select: low_set, high_set (+ unchecked), bit_len, reverse_low, filler_value, read_int, write_int and the nine rounding / offset helpers",
+}
+
+
 def main():
     props = [json.loads(l) for l in open(os.path.join(ROOT, "properties.jsonl"))]
     commits = subprocess.run(["git", "-C", "/repo", "log", "--format=%h %s"], capture_output=True, text=True).stdout.splitlines()
@@ -77,8 +94,9 @@ def main():
                   "baseline_off_cmd": "cd /repo && cargo test --workspace --no-fail-fast --offline",
                   "source_commits": hook, "add_only": True},
         "engines": [{"name": "lean-proof+correspondence", "path": "tools/check.py", "serves_properties": claimed,
-                     "kind_free_text": "Lean 4 theorems about a hand-written executable model (core Lean, kernel-checked, axioms audited) + a translator that "
-                                       "regenerates tables/constants/atomic-op shape from /repo/src on every run + a differential correspondence check "
+                     "kind_free_text": "Lean 4 theorems about an executable model (core Lean, kernel-checked, axioms audited) + a translator that on every run "
+                                       "regenerates from /repo/src the tables / constants / atomic-op shape AND, statement by statement, the bodies of 122 functions "
+                                       "(loops and loaders included) and the shape of all 14 serializers, each tied to the model by a proven equation + a differential correspondence check "
                                        "(Rust harness linking the real crate vs compiled Lean driver running the model's executable definitions and an independent spec)"}],
         "checks": [], "not_applicable": [],
         "notes": "see DESIGN.md. Every check run = translate, lake build + #print axioms audit + source hygiene grep, harness build from /repo's working tree "
@@ -92,10 +110,13 @@ def main():
                 "property_id": pid, "quick_cmd": "./check %s quick" % pid, "thorough_cmd": "./check %s thorough" % pid,
                 "evidence_file": "/verif/evidence/%s.json" % pid, "replay_cmd_template": "./check --replay {path}",
                 "engine": "lean-proof+correspondence",
-                "level_claimed": {"category": "proof", "text": text, "design_ref": "DESIGN.md section 6 (%s)" % pid},
-                "level_note": ("Trusted: Lean 4.33 kernel; axioms propext, Classical.choice, Quot.sound only (audited per theorem); tools/gen_lean.py; harness + "
-                               "driver + check.py; the hand-written model corresponds to the code on all inputs, not only those run. " + note).strip(),
-                "technique": "machine-checked Lean 4 proof over an executable model; model tied to the code by per-run translation of tables/constants and differential correspondence"})
+                "level_claimed": {"category": "proof", "text": text + ((" Translated from the source on every run, statement by statement, with a "
+                                  "proven equation to the model function among this property's obligations: " + TRANSLATED[pid] + ".") if pid in TRANSLATED else ""),
+                                  "design_ref": "DESIGN.md section 6 (%s)" % pid},
+                "level_note": ("Trusted: Lean 4.33 kernel; axioms propext, Classical.choice, Quot.sound only (audited per theorem); the translator (tools/gen_lean.py, rs2lean.py, "
+                               "fn_table.py, ser_shape.py; operator semantics in Model/GenSupport.lean); harness + driver + check.py; for the parts of the code "
+                               "outside the translated subset, that the hand-written model corresponds to the code on all inputs, not only those run. " + note).strip(),
+                "technique": "machine-checked Lean 4 proof over an executable model; model tied to the code by per-run translation of the source (tables, constants, function bodies statement by statement, serializer shapes) with proven equations, and by differential correspondence"})
         else:
             m["not_applicable"].append({"property_id": pid, "reason": "property theorems not assembled yet in this round (model, proofs and correspondence exist; see DESIGN.md) — not a claim that the technique cannot apply"})
     json.dump(m, open(os.path.join(ROOT, "MANIFEST.json"), "w"), indent=1)
